@@ -128,9 +128,9 @@ Definition probe_restricted_join (ident : bytes) : bytes :=
 
 Definition probe_create (ident : bytes) : bytes :=
   pick ident
-    [ (bs "checkCreateEventV1", bs "err,err");
-      (bs "checkCreateEventV2", bs "err,ok");
-      (bs "checkCreateEventV3", bs "ok,ok") ].
+    [ (bs "checkCreateEventV1", bs "err,err,ok");
+      (bs "checkCreateEventV2", bs "err,ok,ok");
+      (bs "checkCreateEventV3", bs "err,err,err") ].
 
 Definition struct_name (n : N) : bytes :=
   if n =? 1 then bs "eventV1" else if n =? 2 then bs "eventV2"
